@@ -4,14 +4,14 @@
 (* hook in main.cpp) must be behaviours of the machine.                     *)
 (*                                                                          *)
 (* Lines of the trace (ndjson):                                             *)
-(*  {"ev":"Plan","schema":s,"ops":[{"call","path","dir","len"}],"nin":n}    *)
+(*  {"ev":"Plan","schema":s,"ops":[{"call","path","dir","len","src"}],"nin":n} *)
 (*      the emission plan of schema s, transliterated from the FAULT-FREE   *)
 (*      reference run of the real binary (which is itself one of the runs   *)
 (*      below and must be accepted)                                         *)
 (*  {"ev":"Reset","run":id,"schema":s,"init":"fresh"|"populated"|"stale",   *)
 (*   "fault":{"cls","k","kind"},"expect":"accept"|"any"}   starts a run     *)
 (*  {"ev":"phase","name":..}          hook (optional)                       *)
-(*  {"ev":"sys","cls","call","path","k","res","errno","len","fd","inj"}     *)
+(*  {"ev":"sys","cls","call","path","src","k","res","errno","len","fd","inj"} *)
 (*  {"ev":"diag","present":b,"located":b}                                   *)
 (*  {"ev":"exit","status":n,"signal":s}                                     *)
 (*  {"ev":"disk","files":[{"path","state"}]}   state: absent | partial |    *)
@@ -109,7 +109,8 @@ TrPhase ==
                  pend, cur, bad, thrown, gen, mayreject, run, plans, nopen, okplans, stage>>
 
 \* ---- system calls (shim) -------------------------------------------------
-Outcome(e) == IF e.res < 0 THEN (IF e.call = "mkdir" /\ e.errno = 17 THEN "exists" ELSE "fail")
+Outcome(e) == IF e.res < 0 THEN (IF e.call = "mkdir" /\ e.errno = 17 THEN "exists"
+                                 ELSE IF e.call = "unlink" /\ e.errno = 2 THEN "absent" ELSE "fail")
               ELSE IF e.call = "write" /\ e.res < e.len THEN "short" ELSE "ok"
 
 TrSysOut ==
@@ -164,13 +165,16 @@ TrDisk ==
   /\ IsEvent("disk") /\ stage = "exited"
   /\ LET fs == Tr[l].files
          I  == 1 .. Len(fs) IN
-       \* the tree holds the planned files and nothing else
-       /\ \A i \in I : fs[i].path \in FilesOf(plan) /\ fs[i].state # "extra"
-       /\ \A f \in FilesOf(plan) : \E i \in I : fs[i].path = f
+       \* the tree holds the planned files and nothing else (a file written under a
+       \* temporary name shows as "extra": it is not part of the reference tree)
+       /\ \A i \in I : /\ fs[i].path \in AllPaths(plan)
+                         /\ (fs[i].state = "extra") => fs[i].path \in TmpFiles(plan)
+       /\ \A f \in FinalFiles(plan) : \E i \in I : fs[i].path = f
        \* ExitTruthful on what is really there
        /\ (exit = 0) => \A i \in I : fs[i].state = "complete"
        \* and, as long as the run stayed on its plan, exactly the model's disk
-       /\ ~offplan => \A i \in I : ObsMatches(fs[i].state, disk[fs[i].path])
+       /\ ~offplan => \A i \in I : IF fs[i].state = "extra" THEN disk[fs[i].path] # "absent"
+                                     ELSE ObsMatches(fs[i].state, disk[fs[i].path])
        \* nothing was touched if no output call was made
        /\ (nio = 0) => \A i \in I : ObsMatches(fs[i].state, disk0[fs[i].path])
   /\ stage' = "checked"
